@@ -84,6 +84,18 @@ CHECKS = {
         note="Workers write the case to an intent log before running it; a worker killed by a signal is a violation "
              "witness (known finding C07-F33 is the platform's int8pack kernel, probed in sacrificial cases; C07-F34 is "
              "torch._int_mm with K=1). CUDA/MPS routes are not executed."),
+    "C08": dict(
+        technique="runtime monitor: structural diff of the module tree around the real quantize() + module-boundary twin "
+                  "oracle (float64 reference of the original class on the dequantized weight and the quantized input "
+                  "observed at the quantize_activation boundary)",
+        level="exploration", ref="4/C08",
+        text="Random module trees (nested containers, shared instances, eligible and non-eligible leaves, Conv2d/LayerNorm "
+             "hyper-parameter space, filters) are quantized with the real quantize(); names, replacement iff eligible and "
+             "selected, parameter bytes, hyper-parameters, dtype/device are checked; every quantized module is then run "
+             "alone on float and quantized inputs and compared with its float64 twin within the dot-product bound "
+             "(+ one output step when activations are quantized).",
+        note="Module-level forwards (each quantized module alone) rather than whole-model forwards; activation scales "
+             "from one calibration batch with streamline=False. Known crash classes of C07 are steered around."),
 }
 
 PLANNED = {}
